@@ -214,7 +214,21 @@ def rand_cspec(r, base):
             u, v = r.sample(labs, 2)
             s['quad'][frozenset((u, v))] = F(r.randint(-8, 8), 4)
         cons[r.choice([f'c{i}', i, ('c', i)])] = (r.choice(['<=', '>=', '==']), F(r.randint(-4, 4), 2), s)
+    # variables that NO expression uses (declared with add_variable only, or left behind by remove_constraint): they are
+    # variables of the model all the same, with a label and a type
+    for x in r.sample(FRESH, r.choice([0, 1, 1, 2])):
+        if x not in vts:
+            vts[x] = r.choice(['BINARY', 'SPIN', 'INTEGER'])
     return dict(vars=vts, obj=cp(base), cons=cons)
+
+
+def unused_vars(c):
+    used = {v for v, _ in c['obj']['vars']} | {v for _, _, s in c['cons'].values() for v, _ in s['vars']}
+    return [v for v in c['vars'] if v not in used]
+
+
+VALUE_ONLY = ('offset', 'linear bias', 'quadratic bias', 'interaction dropped', 'interaction moved to another pair', 'quadratic bias set to zero',
+              'linear bias to/from zero', 'zero-bias interaction added')
 
 
 def ccp(c):
@@ -235,16 +249,55 @@ def cqm_perturbations(r, c):
             t = ccp(c); s2 = cp(s); s2['lin'][v] += F(1, 4); t['cons'][l] = (sn, rhs, s2); out.append(('lhs linear bias', t))
         t = ccp(c); t['cons'] = {('renamed' if k == l else k): v for k, v in c['cons'].items()}; out.append(('constraint label', t))
         t = ccp(c); del t['cons'][l]; out.append(('constraint removed', t))
-    new = r.choice([x for x in FRESH if x not in c['vars']])
-    t = ccp(c); t['vars'][new] = 'BINARY'; out.append(('unused variable added', t))
+    new = r.choice([x for x in FRESH + ['zz'] if x not in c['vars']])
+    t = ccp(c); t['vars'][new] = r.choice(['BINARY', 'SPIN', 'INTEGER']); out.append(('unused variable added', t))
+    # ---- single-field changes of a variable that no expression uses: its type only, its label only, its presence
+    un = unused_vars(c)
+    if un:
+        v = r.choice(un)
+        for vt in ('BINARY', 'SPIN', 'INTEGER'):
+            if vt != c['vars'][v]:
+                t = ccp(c); t['vars'][v] = vt; out.append(('unused variable type', t))
+        t = ccp(c); t['vars'] = {(new if k == v else k): x for k, x in c['vars'].items()}; out.append(('unused variable label', t))
+        t = ccp(c); del t['vars'][v]; out.append(('unused variable removed', t))
+    # ---- the type of a variable that expressions do use (changed consistently everywhere it occurs)
+    usedv = [v for v in c['vars'] if v not in un
+             and not any(frozenset((v,)) in s_['quad'] for s_ in [c['obj']] + [x[2] for x in c['cons'].values()])]
+    if usedv:
+        v = r.choice(usedv); vt = r.choice([x for x in ('BINARY', 'SPIN', 'INTEGER') if x != c['vars'][v]])
+        t = ccp(c); t['vars'][v] = vt
+        retype = lambda s_: s_.update(vars=[(a, vt if a == v else b) for a, b in s_['vars']])   # noqa: E731
+        retype(t['obj'])
+        for l_ in t['cons']:
+            retype(t['cons'][l_][2])
+        out.append(('used variable type', t))
+    # ---- every value field of the objective and of one constraint's lhs (the generic single-field changes of a polynomial)
+    for name, o2 in perturbations(r, c['obj']):
+        if name in VALUE_ONLY:
+            t = ccp(c); t['obj'] = o2; out.append(('objective ' + name, t))
+    if c['cons']:
+        l = r.choice(list(c['cons']))
+        sn, rhs, s_ = c['cons'][l]
+        for name, s2 in perturbations(r, s_):
+            if name in VALUE_ONLY:
+                t = ccp(c); t['cons'][l] = (sn, rhs, s2); out.append(('lhs ' + name, t))
     return out
 
 
 def realise_cqm(r, c):
     vs = list(c['vars'].items()); r.shuffle(vs)
     src = '_o = CQM()\n'
+    un = unused_vars(c)
+    behind = [v for v in un if r.random() < .5]
+    if behind:
+        # these come into the model with a constraint built from a model and stay behind when that constraint is removed
+        src += '_q = QM()\n' + ''.join(f'_q.add_variable({c["vars"][v]!r}, {v!r})\n' for v in behind)
+        src += '_o.add_constraint(_q, "<=", 1.0, label="_tmp")\n'
     for v, vt in vs:
-        src += f'_o.add_variable({vt!r}, {v!r})\n'
+        if v not in behind:
+            src += f'_o.add_variable({vt!r}, {v!r})\n'
+    if behind:
+        src += '_o.remove_constraint("_tmp")\n'
     order = [v for v, _ in c['obj']['vars']]; r.shuffle(order)
     src += f'_o.set_objective({terms_of(c["obj"], order)!r})\n'
     cl = list(c['cons'].items()); r.shuffle(cl)
@@ -390,7 +443,11 @@ def one_round(ctx, r, lines, expect, meta):
         pool.append((Obj('num', base['off'] + 1, float(base['off'] + 1), None), 'number'))
     pool.append((Obj('other', None, r.choice([None, 'abc', [1], {}]), None), 'object'))
     cbase = rand_cspec(r, base)
-    for tag, c in [('same', cbase), ('same', cbase)] + r.sample(cqm_perturbations(r, cbase), k=min(3, len(cqm_perturbations(r, cbase)))):
+    cperts = cqm_perturbations(r, cbase)
+    cmust = [p for p in cperts if 'unused variable' in p[0] or p[0] == 'used variable type']
+    crest = [p for p in cperts if p not in cmust]
+    for tag, c in [('same', cbase), ('same', cbase)] + r.sample(crest, k=min(4, len(crest))) + cmust:
+        ctx.tick('cqm in pool: ' + tag + (' (has unused variables)' if tag == 'same' and unused_vars(c) else ''))
         src = realise_cqm(r, c)
         o, _ = build(src)
         pool.append((Obj('cqm', c['obj'], o, src, None, c), 'cqm ' + tag))
